@@ -29,7 +29,7 @@ import (
 
 func TestMain(m *testing.M) { drv.Main(m) }
 
-const rule = "a world of owned objects is built on the real application (CL positions incl. a transferred one and a superfluid full-range one; locks: bonded, unlocking, split, superfluid-delegated, superfluid-undelegating; factory denoms: plain, admin-changed, admin-renounced, other creator), then one state-changing message naming one object is sent by a generated non-authorised sender (funded stranger holding the same assets, zero-balance stranger, owner of another object of the kind, previous owner/admin, the pool address, module accounts) and - as a control on a discarded branch - by the rightful owner/admin; oracle: unauthorised => transaction fails and the digest of all KV stores is unchanged; control => succeeds (so the failure is not vacuous); renounced admin => fails for everyone; mint-to / burn-from / force-transfer touching a module account fails; created denoms are factory/{sender}/{sub}; non-trivial = wrong sender is a previous owner/admin or owns another object of the same kind or holds the assets the message moves; distinct by (message, object, sender) hash"
+const rule = "a world of owned objects is built on the real application (CL positions incl. a transferred one and a superfluid full-range one; locks: bonded, unlocking, split, superfluid-delegated, superfluid-undelegating; factory denoms: plain, admin-changed, admin-renounced, other creator), then one state-changing message naming one object is sent by a generated non-authorised sender (funded stranger holding the same assets, zero-balance stranger, owner of another object of the kind, previous owner/admin, the pool address, module accounts) and - as a control on a discarded branch - by the rightful owner/admin; oracle: unauthorised => transaction fails and the digest of all KV stores is unchanged; control => succeeds (so the failure is not vacuous); renounced admin => fails for everyone; mint-to / burn-from / force-transfer touching a module account fails; created denoms are factory/{sender}/{sub} and an existing denom (renounced ones included) cannot be created again by its creator; non-trivial = wrong sender is a previous owner/admin or owns another object of the same kind or holds the assets the message moves; distinct by (message, object, sender) hash"
 
 const (
 	A0 = iota // main owner
@@ -386,7 +386,14 @@ func (w *world) attempts(rt *rapid.T) attempt {
 		d := ds[rapid.IntRange(0, len(ds)-1).Draw(rt, "denom")]
 		a := attempt{obj: "denom " + d[len(d)-12:], owner: w.denAdmin[d], prevOwner: w.denPrev[d]}
 		victim := chain.Actor(A2).String()
-		switch rapid.IntRange(0, 6).Draw(rt, "tfMsg") {
+		switch rapid.IntRange(0, 7).Draw(rt, "tfMsg") {
+		case 6:
+			// nobody may create an existing denom again - not even its creator, and in particular not after the admin
+			// was renounced (that would hand the creator every admin power back); the sender drawn below is ignored
+			a.kind = "MsgCreateDenom(existing denom, by its creator)"
+			a.owner, a.prevOwner = -1, -2
+			parts := strings.SplitN(d, "/", 3)
+			a.build = func(s sdk.AccAddress) sdk.Msg { return tftypes.NewMsgCreateDenom(parts[1], parts[2]) }
 		case 0:
 			a.kind = "MsgMint"
 			a.build = func(s sdk.AccAddress) sdk.Msg { return tftypes.NewMsgMintTo(s.String(), coin(d, 1000), s.String()) }
